@@ -1,7 +1,11 @@
 // Package props: one file per property; slots, specification tables, minimum counts.
 package props
 
-import "dsverif/internal/core"
+import (
+	"go/types"
+
+	"dsverif/internal/core"
+)
 
 type Prop struct {
 	Patterns    []string // packages loaded in the quick tier
@@ -12,3 +16,6 @@ type Prop struct {
 }
 
 var Registry = map[string]Prop{}
+
+// types_Object is an alias used by property files that do not import go/types themselves.
+type types_Object = types.Object
